@@ -609,4 +609,219 @@ def ledImage (ts : List LedTiming) : Except PyErr (List UInt8) :=
   let data := (ts.map LedTiming.record).flatten ++ [0, 0, 0, 0]
   if data.all (· < 256) then .ok (data.map UInt8.ofNat) else .error .valueError
 
+/-! ## YAML files (lighthouse_config_manager.py, param_io.py): the envelope logic over abstract YAML values -/
+
+/-- scalar dict keys -/
+inductive Key
+  | null
+  | bool (b : Bool)
+  | int (i : Int)
+  | flt (bits : Nat)
+  | str (s : String)
+  deriving Repr, DecidableEq, Inhabited
+
+/-- the plain values `yaml.dump` / `yaml.safe_load` exchange (floats as binary64 bit patterns) -/
+inductive Y
+  | null
+  | bool (b : Bool)
+  | int (i : Int)
+  | flt (bits : Nat)
+  | str (s : String)
+  | list (l : List Y)
+  | dict (l : List (Key × Y))
+  deriving Repr, Inhabited
+
+/-- an exception out of a file manager: a Python exception class or `Exception('<message>')` -/
+inductive FileErr
+  | py (e : PyErr)
+  | msg (m : String)
+  deriving Repr, DecidableEq
+
+def dlookup (l : List (Key × Y)) (k : Key) : Option Y :=
+  match l with
+  | [] => none
+  | (k', v) :: r => if k' = k then some v else dlookup r k
+
+def isInfixOf (p s : List Char) : Bool :=
+  match s with
+  | [] => p.isEmpty
+  | c :: r => p.isPrefixOf (c :: r) || isInfixOf p r
+
+def Y.isStr (v : Y) (s : String) : Bool :=
+  match v with
+  | .str t => t == s
+  | _ => false
+
+/-- `<str> in c` -/
+def Y.containsStr (c : Y) (s : String) : Except FileErr Bool :=
+  match c with
+  | .dict l => .ok (dlookup l (.str s)).isSome
+  | .list l => .ok (l.any (·.isStr s))
+  | .str t => .ok (isInfixOf s.toList t.toList)
+  | _ => .error (.py .typeError)              -- argument of type 'NoneType' / 'int' / ... is not iterable
+
+/-- `c[<str>]` -/
+def Y.getStr (c : Y) (s : String) : Except FileErr Y :=
+  match c with
+  | .dict l => match dlookup l (.str s) with
+    | some v => .ok v
+    | none => .error (.py .keyError)
+  | _ => .error (.py .typeError)              -- list/str indices must be integers; None/int/float not subscriptable
+
+/-- `c[<int>]` for a non-negative literal index -/
+def Y.getIdx (c : Y) (i : Nat) : Except FileErr Y :=
+  match c with
+  | .dict l => match dlookup l (.int i) with
+    | some v => .ok v
+    | none => .error (.py .keyError)
+  | .list l => match l[i]? with
+    | some v => .ok v
+    | none => .error (.py .indexError)
+  | .str t => match t.toList[i]? with
+    | some ch => .ok (.str (String.ofList [ch]))
+    | none => .error (.py .indexError)
+  | _ => .error (.py .typeError)
+
+/-- `c.items()` -/
+def Y.items (c : Y) : Except FileErr (List (Key × Y)) :=
+  match c with
+  | .dict l => .ok l
+  | _ => .error (.py .attributeError)
+
+/-- the four checks both `read()` functions start with -/
+def checkEnvelope (data : Y) (typeId type versionId version : String) (msgs : List String) : Except FileErr Unit := do
+  if ¬ (← data.containsStr typeId) then .error (.msg (msgs.getD 0 ""))
+  if ¬ (← data.getStr typeId).isStr type then .error (.msg (msgs.getD 1 ""))
+  if ¬ (← data.containsStr versionId) then .error (.msg (msgs.getD 2 ""))
+  if ¬ (← data.getStr versionId).isStr version then .error (.msg (msgs.getD 3 ""))
+  pure ()
+
+/-- a `LighthouseBsGeometry` as the file manager sees it: whatever `origin` / `rotation_matrix` hold, and `valid` -/
+structure FGeo where
+  origin : Y
+  rotation : Y
+  valid : Bool
+  deriving Repr
+
+structure FSweep where
+  f : List Y             -- phase, tilt, curve, gibmag, gibphase, ogeemag, ogeephase
+  deriving Repr
+
+structure FCalib where
+  s0 : FSweep
+  s1 : FSweep
+  uid : Y
+  valid : Bool
+  deriving Repr
+
+def FGeo.asFile (g : FGeo) : Y :=
+  .dict [(.str (Gen.C14.lhfGeoIds.getD 0 ""), g.origin), (.str (Gen.C14.lhfGeoIds.getD 1 ""), g.rotation)]
+
+def FSweep.asFile (s : FSweep) : Y := .dict ((Gen.C14.lhfSweepIds.zip s.f).map fun (k, v) => (.str k, v))
+
+def FCalib.asFile (c : FCalib) : Y :=
+  .dict [(.str (Gen.C14.lhfCalibIds.getD 0 ""), .list [c.s0.asFile, c.s1.asFile]), (.str (Gen.C14.lhfCalibIds.getD 1 ""), c.uid)]
+
+/-- `LighthouseConfigFileManager.write`: the object handed to `yaml.dump` (only valid objects are written) -/
+def lhFileDoc (geos : List (Int × FGeo)) (calibs : List (Int × FCalib)) (systemType : Y) : Y :=
+  .dict [(.str Gen.C14.lhfTypeId, .str Gen.C14.lhfType), (.str Gen.C14.lhfVersionId, .str Gen.C14.lhfVersion),
+         (.str Gen.C14.lhfSystemTypeId, systemType),
+         (.str Gen.C14.lhfGeosId, .dict ((geos.filter (·.2.valid)).map fun (i, g) => (.int i, g.asFile))),
+         (.str Gen.C14.lhfCalibsId, .dict ((calibs.filter (·.2.valid)).map fun (i, c) => (.int i, c.asFile)))]
+
+def FGeo.fromFile (o : Y) : Except FileErr FGeo := do
+  let a ← o.getStr (Gen.C14.lhfGeoIds.getD 0 "")
+  let b ← o.getStr (Gen.C14.lhfGeoIds.getD 1 "")
+  pure ⟨a, b, true⟩
+
+def FSweep.fromFile (o : Y) : Except FileErr FSweep := do
+  let l ← Gen.C14.lhfSweepIds.mapM o.getStr
+  pure ⟨l⟩
+
+def FCalib.fromFile (o : Y) : Except FileErr FCalib := do
+  let sw ← o.getStr (Gen.C14.lhfCalibIds.getD 0 "")
+  let s0 ← FSweep.fromFile (← sw.getIdx 0)
+  let s1 ← FSweep.fromFile (← sw.getIdx 1)
+  let uid ← o.getStr (Gen.C14.lhfCalibIds.getD 1 "")
+  pure ⟨s0, s1, uid, true⟩
+
+def mapItems {α} (f : Y → Except FileErr α) : List (Key × Y) → Except FileErr (List (Key × α))
+  | [] => .ok []
+  | (k, v) :: r => do
+    let a ← f v
+    let rest ← mapItems f r
+    pure ((k, a) :: rest)
+
+/-- `LighthouseConfigFileManager.read` on the loaded value -/
+def lhFileRead (data : Y) : Except FileErr (List (Key × FGeo) × List (Key × FCalib) × Y) := do
+  checkEnvelope data Gen.C14.lhfTypeId Gen.C14.lhfType Gen.C14.lhfVersionId Gen.C14.lhfVersion Gen.C14.lhfReadMessages
+  let st ← if (← data.containsStr Gen.C14.lhfSystemTypeId) then data.getStr Gen.C14.lhfSystemTypeId
+           else pure (.int Gen.C14.lhfSystemTypeV2)
+  let geos ← if (← data.containsStr Gen.C14.lhfGeosId) then do
+               mapItems FGeo.fromFile (← (← data.getStr Gen.C14.lhfGeosId).items)
+             else pure []
+  let calibs ← if (← data.containsStr Gen.C14.lhfCalibsId) then do
+                 mapItems FCalib.fromFile (← (← data.getStr Gen.C14.lhfCalibsId).items)
+               else pure []
+  pure (geos, calibs, st)
+
+/-- `PersistentParamState` -/
+structure PState where
+  isStored : Y
+  defaultValue : Y
+  storedValue : Y
+  deriving Repr
+
+def PState.asFile (p : PState) : Y :=
+  .dict [(.str "is_stored", p.isStored), (.str "default_value", p.defaultValue), (.str "stored_value", p.storedValue)]
+
+/-- `ParamFileManager.write`: the object handed to `yaml.dump` -/
+def paramFileDoc (params : List (String × PState)) : Y :=
+  .dict [(.str Gen.C14.pfTypeId, .str Gen.C14.pfType), (.str Gen.C14.pfVersionId, .str Gen.C14.pfVersion),
+         (.str Gen.C14.pfParamsId, .dict (params.map fun (n, p) => (.str n, p.asFile)))]
+
+def PState.fromFile (o : Y) : Except FileErr PState := do
+  let a ← o.getStr "is_stored"
+  let b ← o.getStr "default_value"
+  let c ← o.getStr "stored_value"
+  pure ⟨a, b, c⟩
+
+/-- `ParamFileManager.read` on the loaded value (`None` when the YAML could not be parsed) -/
+def paramFileRead (data : Y) : Except FileErr (List (Key × PState)) := do
+  checkEnvelope data Gen.C14.pfTypeId Gen.C14.pfType Gen.C14.pfVersionId Gen.C14.pfVersion Gen.C14.pfReadMessages
+  if (← data.containsStr Gen.C14.pfParamsId) then do
+    mapItems PState.fromFile (← (← data.getStr Gen.C14.pfParamsId).items)
+  else pure []
+
+/-! ### what PyYAML does to a plain value (TRUSTED, cross-checked against the real library in the correspondence):
+`safe_load(dump(v))` returns `v` with the entries of every dict sorted by key (`sort_keys=True`; the keys of a dict
+written by these file managers are all strings or all ints) -/
+
+def Key.lt : Key → Key → Bool
+  | .int a, .int b => a < b
+  | .str a, .str b => a < b
+  | _, _ => false
+
+def insEntry {α} (e : Key × α) : List (Key × α) → List (Key × α)
+  | [] => [e]
+  | f :: r => if f.1.lt e.1 then f :: insEntry e r else e :: f :: r
+
+/-- entries sorted by key (insertion sort; stable) -/
+def sortEntries {α} : List (Key × α) → List (Key × α)
+  | [] => []
+  | e :: r => insEntry e (sortEntries r)
+
+mutual
+def Y.canon : Y → Y
+  | .dict l => .dict (sortEntries (canonEntries l))
+  | .list l => .list (canonList l)
+  | y => y
+def canonEntries : List (Key × Y) → List (Key × Y)
+  | [] => []
+  | (k, v) :: r => (k, Y.canon v) :: canonEntries r
+def canonList : List Y → List Y
+  | [] => []
+  | v :: r => Y.canon v :: canonList r
+end
+
 end CfVerif.C14
